@@ -1,4 +1,93 @@
-import Blf.QueueConc
-/-! # C11 (ownership theorem under construction) -/
+import Blf.Pipe
+import Blf.WPipe
+/-!
+# C11 — No data races; an object handed over is never touched by the other side again
+
+What the pipeline models can carry of this property: **ownership**.  Objects are identified by distinct ids.
+
+* read session (`Blf.Pipe`): in every reachable state, under every interleaving, an object the application has received is
+  neither in the object queue nor among the objects the parser still has to push — the library holds no reference to it
+  (`C11_read_handover`);
+* write session (`Blf.WPipe`): an object the application has passed to `write()` is in the queue, with the encoder, or
+  already written — never again among the objects the application still owns, and each object is in exactly one place
+  (`C11_write_handover`).
+
+Not expressible in these models: that the C++ code makes no access outside the critical sections the models consist of (a data
+race is an access the model does not have).  That part is checked dynamically: ThreadSanitizer on native stress runs, and
+AddressSanitizer under the controlled scheduler, where the application deletes every object right after `read()` returned
+it, so that a late access by a worker is a deterministic use-after-free (this is how the defect repaired by cb8a11b shows).
+-/
 namespace Blf.Props
+open Blf
+
+/-- received ++ queued ++ still to be pushed is always an initial segment of what the parser's program pushes -/
+def Pipe.Hand (all : List Pipe.POp) (s : Pipe.Sys) : Prop :=
+  ∃ rest, s.got ++ s.q.queue ++ (if s.par = .done then [] else Pipe.qwrites s.prog) ++ rest = Pipe.qwrites all
+
+theorem Pipe.hand_step (all : List Pipe.POp) (s t : Pipe.Sys) (h : Pipe.Hand all s) (hst : Pipe.Step s t) : Pipe.Hand all t := by
+  obtain ⟨rest, hr⟩ := h
+  cases hst with
+  | push c r h1 h2 hg => exact ⟨rest, by simpa [Pipe.wake_eq_done] using hr⟩
+  | pushBlock c r h1 h2 hg => exact ⟨rest, hr⟩
+  | infEos h1 h2 => exact ⟨rest, by simpa [Pipe.wake_eq_done] using hr⟩
+  | uread n r j h1 h2 hg hj => exact ⟨rest, by simp only [h1, h2, Pipe.qwrites] at hr ⊢; simpa [h1] using hr⟩
+  | ureadBlock n r h1 h2 hg => exact ⟨rest, by simp only [h1] at hr; simpa using hr⟩
+  | useek off r h1 h2 => exact ⟨rest, by simp only [h1, h2, Pipe.qwrites] at hr ⊢; simpa [h1] using hr⟩
+  | udrop r h1 h2 => exact ⟨rest, by simp only [h1, h2, Pipe.qwrites] at hr ⊢; simpa [h1] using hr⟩
+  | qwrite x r h1 h2 hg =>
+    refine ⟨rest, ?_⟩
+    simp only [h1, h2, Pipe.qwrites] at hr ⊢
+    simpa [Queue.step, h1, List.append_assoc] using hr
+  | qwriteBlock x r h1 h2 hg => exact ⟨rest, by simp only [h1] at hr; simpa using hr⟩
+  | parEos h1 h2 =>
+    refine ⟨Pipe.qwrites s.prog ++ rest, ?_⟩
+    simp only [h1] at hr
+    simpa [Queue.step, List.append_assoc] using hr
+  | recv x r h1 h0 hg hq =>
+    refine ⟨rest, ?_⟩
+    rw [hq] at hr
+    simpa [Queue.step, hq, Pipe.wake_eq_done, List.append_assoc] using hr
+  | recvNull h1 h0 hg hq => exact ⟨rest, by simpa [Queue.step, hq, Pipe.wake_eq_done] using hr⟩
+  | recvBlock h1 h0 hg => exact ⟨rest, hr⟩
+  | close h1 => exact ⟨rest, by simpa [Queue.step, Pipe.wake_eq_done] using hr⟩
+
+theorem Pipe.hand_reach (bufU : Int) (capQ : Nat) (conts : List Nat) (prog : List Pipe.POp) (s : Pipe.Sys)
+    (h : Pipe.Reach bufU capQ conts prog s) : Pipe.Hand prog s := by
+  induction h with
+  | init => exact ⟨[], by simp [Pipe.init]⟩
+  | step s t _ hst ih => exact Pipe.hand_step prog s t ih hst
+
+theorem nodup_append_disjoint {α} {a b : List α} (h : (a ++ b).Nodup) (x : α) (ha : x ∈ a) : x ∉ b := by
+  intro hb
+  have := List.nodup_append.1 h
+  exact this.2.2 x ha x hb rfl
+
+/-- **read session**: an object handed to the application is nowhere in the library any more -/
+theorem C11_read_handover (bufU : Int) (capQ : Nat) (conts : List Nat) (prog : List Pipe.POp)
+    (hnd : (Pipe.qwrites prog).Nodup) (s : Pipe.Sys) (h : Pipe.Reach bufU capQ conts prog s) (x : Nat) (hx : x ∈ s.got) :
+    x ∉ s.q.queue ∧ (s.par ≠ .done → x ∉ Pipe.qwrites s.prog) := by
+  obtain ⟨rest, hr⟩ := Pipe.hand_reach bufU capQ conts prog s h
+  rw [← hr] at hnd
+  have h1 : (s.got ++ (s.q.queue ++ ((if s.par = .done then [] else Pipe.qwrites s.prog) ++ rest))).Nodup := by
+    simpa [List.append_assoc] using hnd
+  have hd := nodup_append_disjoint h1 x hx
+  refine ⟨fun hq => hd (by simp [hq]), fun hp hm => hd ?_⟩
+  simp [hp, hm]
+
+/-- **write session**: an object passed to `write()` is in exactly one place inside the library and no longer with the
+    application -/
+theorem C11_write_handover (sz : Nat → Nat) (bufU : Int) (capQ : Nat) (hc : 0 < capQ) (cs : Nat) (hcs : 0 < cs)
+    (objs : List Nat) (hs : objs.length < Queue.U32MAX) (hb : (WPipe.total sz objs : Int) + cs < UFile.I64MAX)
+    (hnd : objs.Nodup) (s : WPipe.Sys) (h : WPipe.Reach sz bufU capQ cs objs s) (x : Nat)
+    (hx : x ∈ s.wr ∨ x ∈ WPipe.pend s.pending ∨ x ∈ s.q.queue) : x ∉ s.toWrite := by
+  have hi := WPipe.reach_inv sz bufU capQ hc cs hcs objs hs hb s h
+  have hh := hi.hist
+  rw [← hh] at hnd
+  have h1 : ((s.wr ++ WPipe.pend s.pending ++ s.q.queue) ++ s.toWrite).Nodup := hnd
+  exact nodup_append_disjoint h1 x (by
+    rcases hx with hx | hx | hx
+    · simp [hx]
+    · simp [hx]
+    · simp [hx])
+
 end Blf.Props
